@@ -353,6 +353,10 @@ void QXmppOutgoingClient::_q_socketDisconnected()
     if (d->nextAddressState == QXmppOutgoingClientPrivate::TryNext) {
         d->connectToNextAddress();
     } else if (d->redirect) {
+        // a redirect may also arrive while a session is established: that session ends here
+        if (d->sessionStarted) {
+            closeSession();
+        }
         d->connectToHost({ ServerAddress::Tcp, d->redirect->host, d->redirect->port });
         d->redirect.reset();
     } else {
